@@ -20,6 +20,7 @@ import M17.Spec.Tx
 import M17.Model.Mod
 import M17.Model.Dcd
 import M17.Model.App
+import M17.Model.Demod
 
 open M17
 
@@ -130,6 +131,28 @@ def dcdSeq (lvl trig : Int) (toks : List Int) : String :=
     | _, _ => acc
   joinInts (go (toks.length + 1) toks { level := Float32.ofBits (UInt32.ofNat lvl.toNat), triggered := trig != 0 } [])
 
+/-- demod_trace: 13 numbers per observed state (st sc msc si ssi ci dcd ncr ncu cnt fi swt cost); checks that every observed
+    transition of the real demodulator is a transition of the control-skeleton model under some event record -/
+def demodTrace (toks : List Int) : String :=
+  let rec parse (fuel : Nat) (t : List Int) (acc : Array Demod.St) : Array Demod.St :=
+    match fuel, t with
+    | fu+1, st :: sc :: msc :: si :: ssi :: ci :: dcd :: ncr :: ncu :: cnt :: fi :: swt :: cost :: rest =>
+      parse fu rest (acc.push { st := st.toNat, sc := sc.toNat, msc := msc.toNat, si := si.toNat, ssi := ssi.toNat, ci := ci.toNat, dcd := dcd != 0,
+                                ncr := ncr != 0, ncu := ncu != 0, cnt := cnt.toNat, fi := fi.toNat, swt := swt.toNat, cost := cost.toNat, eot := false, frames := 0 })
+    | _, _ => acc
+  let obs := parse (toks.length + 1) toks #[]
+  if obs.size == 0 then "bad empty" else
+  Id.run do
+    let mut m := obs[0]!
+    let mut syms := 0
+    for i in [1:obs.size] do
+      let post := obs[i]!
+      if Demod.isSymbol m then syms := syms + 1
+      match Demod.follow m post with
+      | some m' => m := m'
+      | none => return s!"bad {i} : {repr m} -> {repr post}"
+    return s!"ok {obs.size - 1} {m.frames} {syms}"
+
 def firRun {α : Type} [Add α] [Sub α] [Mul α] [OfNat α 0] (taps : List α) (conv : Int → α) (show_ : α → Int) (toks : List Int) : String :=
   let rec go (fuel : Nat) (toks : List Int) (f : Dsp.Fir α) (acc : List Int) : List Int :=
     match fuel, toks with
@@ -237,6 +260,7 @@ def handle (st : DrvState) (op : String) (a : List Int) : DrvState × String :=
     (st, joinInts outs)
   | "app_lsf", disp :: lsf =>
     (st, "1 | " ++ (App.report (disp != 0) (lsf.map Int.toNat)).replace "\n" "\\n")
+  | "demod_trace", toks => (st, demodTrace toks)
   | "dcd_seq", lvl :: trig :: toks =>
     (st, dcdSeq lvl trig toks)
   | "fir", d :: toks =>
